@@ -1,5 +1,6 @@
 import FormulaicVerif.Proofs.C03
 import FormulaicVerif.Proofs.TensorRank
+import FormulaicVerif.Proofs.C03Bridge
 import Mathlib.Algebra.Field.Rat
 /-! # C03 — Rank reduction yields a structurally full-rank matrix with unchanged span
 
@@ -14,12 +15,14 @@ choices of presence for its optional factors (full coding of an intercept-spanni
 matrix is *structurally full rank* when no component is emitted twice, and its span is unchanged
 when the emitted components are exactly those of the unreduced matrix.
 
-The bridge from this combinatorial statement to linear algebra is proved only in part
-(`components_independent_partial`: on a fully crossed design the columns of pairwise different
-component/column choices are jointly linearly independent). The remaining step — a scoped term with
-full-coded factors spans exactly the sum of its components — is stated at the end as
-`-- FULL (unproved)` and is covered by the numeric rank oracle of `harness/props/c03.py` on every
-generated case. -/
+The bridge from this combinatorial statement to linear algebra is proved (section `bridge`, with
+`Proofs/TensorRank.lean` and `Proofs/C03Bridge.lean`, Mathlib single modules): (1) one factor — the full
+coding spans `1 ⊕ reduced coding`; (2) a scoped term with full-coded factors spans exactly the sum of
+its structural components on a fully crossed design; (3) hence the columns of the structure emitted
+with rank reduction on are linearly independent and span what the unreduced structure spans
+(`reduced_matrix_full_rank_same_span`). What is left as `-- FULL (unproved)` at the end is only the
+identification of these structure columns with the `List Rat` Entry columns of `buildMatrix` (C02's
+`column_is_product` is the pointwise form of it). -/
 
 namespace FormulaicVerif.Props.C03
 open FormulaicVerif.Model FormulaicVerif.Spec FormulaicVerif.Proofs.C03 FormulaicVerif.Proofs.C02
@@ -157,9 +160,9 @@ example : ∀ t ∈ (demoCfg true).terms, ∀ efs, evaledFactors demoCache t = .
   exact this
 
 section bridge
-open FormulaicVerif.Proofs.TensorRank
+open FormulaicVerif.Proofs.TensorRank FormulaicVerif.Proofs.C03Bridge
 
-/-- C03.5 (partial)  Bridge to linear algebra, first half. Take any number of factors; factor `i` has
+/-- C03.5  Tensor-rank core of the bridge to linear algebra. Take any number of factors; factor `i` has
 levels `L i` and reduced columns `R i j : L i → K`, and `[1 | R i]` (`aug (R i)`) is linearly
 independent over the levels of factor `i` (what C11 establishes for every built-in contrast; a
 numeric variable taking two distinct values satisfies it with `R = id`). On the FULLY CROSSED
@@ -169,7 +172,7 @@ design (rows = all combinations of levels) consider component columns
 different component/column choices — in particular columns belonging to different structural
 components — is linearly independent. With `structurally_full_rank` this is the linear independence
 of a matrix all of whose scoped terms are reduced-coded. -/
-theorem components_independent_partial {K : Type} [Field K] {n : ℕ} {J L : Fin n → Type}
+theorem components_independent {K : Type} [Field K] {n : ℕ} {J L : Fin n → Type}
     (R : (i : Fin n) → J i → (L i → K)) (h : ∀ i, LinearIndependent K (aug (R i)))
     {ι : Type} (c : ι → (i : Fin n) → Option (J i)) (hc : Function.Injective c) :
     LinearIndependent K (fun x => compColumn R (c x)) :=
@@ -190,22 +193,158 @@ example : ∀ i, LinearIndependent ℚ (aug (demoR i)) := by
   | none => exact h0
   | some u => cases u; simpa [h0] using h1
 
+/-- C03.5a  (1) ONE factor with levels `L`: if the reduced coding `R` has one column fewer than there
+are levels and the columns of `[1 | R]` are linearly independent — i.e. the square matrix `[1 | coding]`
+is invertible, which is what C11 proves for every built-in contrast (`aug_linearIndependent_of_det_ne_zero`
+gives the implication from a non-zero determinant) — then the full (dummy, one indicator per level)
+coding spans exactly the constant column plus the reduced columns. For the treatment coding the
+reduced columns are the indicators of all levels but the reference one, so the statement reads
+`span {all indicators} = span 1 ⊔ span {indicators of the non-reference levels}`. -/
+theorem full_coding_span_eq_one_sup_reduced {K : Type} [Field K] {J L : Type} [Fintype J] [Fintype L]
+    [DecidableEq L] (R : J → (L → K)) (hli : LinearIndependent K (aug R))
+    (hcard : Fintype.card J + 1 = Fintype.card L) :
+    Submodule.span K (Set.range (fun l : L => (Pi.single l (1 : K) : L → K))) =
+      Submodule.span K {fun _ => (1 : K)} ⊔ Submodule.span K (Set.range R) :=
+  span_full_eq_one_sup_reduced R hli hcard
+
+/-- non-vacuity: both hypotheses hold for the treatment coding of a two-level factor -/
+example : LinearIndependent ℚ (aug (demoR 0)) ∧ Fintype.card Unit + 1 = Fintype.card (Fin 2) := by
+  refine ⟨?_, by simp⟩
+  rw [Fintype.linearIndependent_iff]
+  intro g hg o
+  have h0 := congrFun hg 0
+  have h1 := congrFun hg 1
+  simp [Fintype.sum_option, aug, demoR] at h0 h1
+  cases o with
+  | none => exact h0
+  | some u => cases u; simpa [h0] using h1
+
+/-- C03.5b  (2) A scoped term on a fully crossed design. Factors are the axes `i : Fin n`; factor `i`
+has a reduced coding `R i` and a full coding `F i` satisfying `Hyp`: `[1 | R i]` linearly independent,
+`F i` linearly independent, `span F i = span [1 | R i]` when the factor spans the intercept (by C03.5a
+this holds for the dummy coding against every built-in contrast) and `span F i = span R i` otherwise
+(numeric factors). A scoped term is given by its coding flags `code i ∈ {absent, reduced, full}`; its
+columns `stFamily R F code` are the row-wise Kronecker (Khatri–Rao) product of its factor blocks.
+Then the span of these columns is exactly the sum, over the structural components `S` of the term
+(every presence choice for its full-coded intercept-spanning factors), of the spans of the products of
+the corresponding REDUCED blocks. -/
+theorem scoped_term_span_eq_sum_of_components {K : Type} [Field K] {n : ℕ} {L JR JF : Fin n → Type}
+    (R : (i : Fin n) → JR i → (L i → K)) (F : (i : Fin n) → JF i → (L i → K)) (spans : Fin n → Bool)
+    (h : Hyp R F spans) (code : Code n) :
+    Submodule.span K (Set.range (stFamily R F code)) =
+      ⨆ S ∈ compsF spans code, Submodule.span K (Set.range (stFamily R F (redCode S))) :=
+  span_stFamily_eq_iSup_components R F spans h code
+
+/-! #### non-vacuity on a two-factor design (`dExpr`, `dR`, `dF` of `Proofs/C03Bridge.lean`): `A`, `B` with two
+levels each, treatment coded -/
+
+/-- non-vacuity of C03.5b -/
+example : Hyp dR dF (fun i => spansOf demoCache (dExpr i)) := hyp_treatment2 _ (by decide +kernel)
+
+/-- C03.5c  (3) The property on the model's structure. Let `rs` / `rsFull` be the structures
+`buildStructure` emits with rank reduction on / off for the same formula, and let a fully crossed
+design be given: an injective naming `expr` of its axes that covers every factor of every emitted
+scoped term, and codings `R`, `F` of the axes satisfying `Hyp` (with `spans` read from the factor
+cache). `structureColumns expr R F E` are the columns of a list `E` of model scoped terms on that
+design: for every term and every choice of one column per factor of the term — from `R` when the
+factor is flagged reduced, from `F` otherwise — the row-wise product of the chosen columns (this is
+what C02's `column_is_product` / `kron_full` say the matrix columns are, up to the non-zero literal
+scale). Then the columns emitted with rank reduction ON are linearly independent and span the SAME
+space as the columns emitted with rank reduction OFF — for every term list, order and clustering. -/
+theorem reduced_matrix_full_rank_same_span (cfg : Config) (hefr : cfg.ensureFullRank = true)
+    (hwf : ∀ t ∈ cfg.terms, t.Nodup)
+    (hsc : ∀ t ∈ cfg.terms, ∀ efs, evaledFactors cfg.cache t = .ok efs → literalScale efs ≠ 0)
+    (rs rsFull : List TermResult) (h : buildStructure cfg = .ok rs)
+    (hfull : buildStructure { cfg with ensureFullRank := false } = .ok rsFull)
+    {K : Type} [Field K] {n : ℕ} {L JR JF : Fin n → Type}
+    (expr : Fin n → String) (hinj : Function.Injective expr)
+    (R : (i : Fin n) → JR i → (L i → K)) (F : (i : Fin n) → JF i → (L i → K))
+    (hyp : Hyp R F (fun i => spansOf cfg.cache (expr i)))
+    (hcov : ∀ st ∈ rs.flatMap (·.sts) ++ rsFull.flatMap (·.sts), ∀ sf ∈ st.factors, ∃ i, expr i = sf.expr) :
+    LinearIndependent K (structureColumns expr R F (rs.flatMap (·.sts))) ∧
+    Submodule.span K (Set.range (structureColumns expr R F (rs.flatMap (·.sts)))) =
+      Submodule.span K (Set.range (structureColumns expr R F (rsFull.flatMap (·.sts)))) := by
+  have hfr := structurally_full_rank cfg hefr hwf hsc rs h
+  have hsp := span_unchanged cfg hefr hwf hsc rs rsFull h hfull
+  obtain ⟨terms, scp, hc, hg, hb⟩ := buildStructure_spec h
+  obtain ⟨terms', scp', hc', hg', hb'⟩ := buildStructure_spec hfull
+  have hst : rs.flatMap (·.sts) = scp.flatMap (·.2) := by
+    rw [← (buildTerms_spec hb).1, List.flatMap_map]
+  have hst' : rsFull.flatMap (·.sts) = scp'.flatMap (·.2) := by
+    rw [← (buildTerms_spec hb').1, List.flatMap_map]
+  have hnd : ∀ st ∈ rs.flatMap (·.sts), ExprNodup st := by
+    rw [hst]
+    exact getScopedTerms_exprNodup hg (fun t ht => hwf t (clusterTerms_mem hc ht))
+  have hnd' : ∀ st ∈ rsFull.flatMap (·.sts), ExprNodup st := by
+    rw [hst']
+    exact getScopedTerms_exprNodup hg' (fun t ht => hwf t (clusterTerms_mem hc' ht))
+  exact FormulaicVerif.Proofs.C03Bridge.model_structure_full_rank_same_span expr cfg.cache R F hinj hyp
+    _ _ hnd hnd' (fun st hst => hcov st (List.mem_append_left _ hst))
+    (fun st hst => hcov st (List.mem_append_right _ hst)) hfr hsp
+
+/-- the formula `0 + A + A:B` over the two-factor design -/
+def demoCfg2 (efr : Bool) : Config :=
+  { cache := demoCache, terms := [["A"], ["A", "B"]], ensureFullRank := efr,
+    clusterByNumerical := false, variant := .fast, nrows := 4 }
+
+/-- non-vacuity of C03.5c: every hypothesis holds on `0 + A + A:B`, and the theorem applies. -/
+example : ∃ rs rsFull, buildStructure (demoCfg2 true) = .ok rs ∧
+    buildStructure (demoCfg2 false) = .ok rsFull ∧
+    LinearIndependent ℚ (structureColumns dExpr dR dF (rs.flatMap (·.sts))) ∧
+    Submodule.span ℚ (Set.range (structureColumns dExpr dR dF (rs.flatMap (·.sts)))) =
+      Submodule.span ℚ (Set.range (structureColumns dExpr dR dF (rsFull.flatMap (·.sts)))) := by
+  have e1 : ((buildStructure (demoCfg2 true)).toOption.map (fun rs => rs.flatMap (·.sts))) =
+      some [⟨[⟨"A", false⟩], 1⟩, ⟨[⟨"A", false⟩, ⟨"B", true⟩], 1⟩] := by decide +kernel
+  have e2 : ((buildStructure (demoCfg2 false)).toOption.map (fun rs => rs.flatMap (·.sts))) =
+      some [⟨[⟨"A", false⟩], 1⟩, ⟨[⟨"A", false⟩, ⟨"B", false⟩], 1⟩] := by decide +kernel
+  cases h1 : (buildStructure (demoCfg2 true)).toOption with
+  | none => simp [h1] at e1
+  | some rs =>
+    cases h2 : (buildStructure (demoCfg2 false)).toOption with
+    | none => simp [h2] at e2
+    | some rsFull =>
+      simp only [h1, h2, Option.map_some, Option.some.injEq] at e1 e2
+      have hb1 := ok_of_toOption h1
+      have hb2 := ok_of_toOption h2
+      refine ⟨rs, rsFull, hb1, hb2, ?_⟩
+      have hsc : ∀ t ∈ (demoCfg2 true).terms, ∀ efs, evaledFactors (demoCfg2 true).cache t = .ok efs →
+          literalScale efs ≠ 0 := by
+        have hall : ∀ t ∈ (demoCfg2 true).terms, nonzeroScale demoCache t = true := by decide +kernel
+        intro t ht efs he
+        have := hall t ht
+        have he' : evaledFactors demoCache t = .ok efs := he
+        simp only [nonzeroScale, he', bne_iff_ne, ne_eq] at this
+        exact this
+      have hinj : Function.Injective dExpr := by
+        intro i j hij
+        fin_cases i <;> fin_cases j <;> simp_all [dExpr]
+      apply reduced_matrix_full_rank_same_span (demoCfg2 true) rfl (by decide) hsc rs rsFull hb1 hb2
+        dExpr hinj dR dF (hyp_treatment2 _ (by decide +kernel))
+      intro st hst sf hsf
+      rw [e1, e2] at hst
+      simp only [List.mem_append, List.mem_cons, List.not_mem_nil, or_false] at hst
+      have hall : ∀ e ∈ ["A", "B"], ∃ i, dExpr i = e := by
+        intro e he
+        simp only [List.mem_cons, List.not_mem_nil, or_false] at he
+        rcases he with rfl | rfl
+        · exact ⟨0, rfl⟩
+        · exact ⟨1, rfl⟩
+      apply hall
+      rcases hst with (rfl | rfl) | (rfl | rfl) <;> simp at hsf <;>
+        (try rcases hsf with rfl | rfl) <;> (try subst hsf) <;> simp
+
 end bridge
 
--- FULL (unproved): the bridge to linear algebra (`reduced_matrix_full_rank_same_span`).
---   With the hypotheses of `components_independent_partial` and, in addition, `[1 | R i]` a BASIS of the
---   functions on the levels of factor `i` (finitely many levels, one reduced column fewer than levels):
---   (i) the columns emitted for a scoped term (reduced columns for its reduced factors, one indicator
---       per level for its full factors) span exactly the direct sum of the component spaces of its
---       structural components `comps st`, and are as many as the dimension of that sum;
---   (ii) hence, by `structurally_full_rank` (no component twice), `span_unchanged` (same component set as
---       the unreduced matrix) and `components_independent_partial` (component spaces are independent),
---       the reduced matrix has linearly independent columns and the same column space as the unreduced one.
--- Proved: the tensor-rank core (`Proofs/TensorRank.lean`: products of per-axis independent families are
---   independent on the crossed design, any number of axes) and its component form above.
--- Missing: step (i) — the change of basis `span {indicators of f} = span [1 | R f]` multiplied through the
---   other factors of the term, with the dimension count — and therefore (ii). Covered only by the numeric
---   oracle of harness/props/c03.py (numpy.linalg.matrix_rank on fully crossed designs: rank(reduced) =
---   number of columns, rank([reduced | full]) = rank(full) = rank(reduced)), which runs on every generated case.
+-- FULL (unproved): `matrix_columns_are_structure_columns` — the identification of `structureColumns` with the Entry
+--   columns of `buildMatrix`. `column_is_product` (C02) proves that every Entry column of the model equals,
+--   row by row, the non-zero literal scale times the product of the encoded factor columns its label names,
+--   and `kron_full` / `entry_provenance` that a term contributes one Entry per choice of one column per
+--   factor; `structureColumns` is that same product with the encoded columns read as functions of the
+--   factor's level on the crossed design. Stating this as a Lean theorem needs a row enumeration
+--   `Fin nrows ≃ Π i, L i`, a bijection between the fields of each encoded factor and `JR i` / `JF i`, and
+--   freedom from printed-name collisions (Python dict keys); it is not formalised. The numeric oracle of
+--   harness/props/c03.py (matrix_rank on fully crossed designs: rank(reduced) = number of columns,
+--   rank([reduced | full]) = rank(full) = rank(reduced)) checks the conclusion on the real matrices on
+--   every generated case.
 
 end FormulaicVerif.Props.C03
